@@ -60,6 +60,17 @@ NaN = _NaN()
 nan = NaN
 
 
+class _Uninit(_NaN):
+    """Content of np.empty() that was never written: behaves as NaN, but is reported as 'uninitialised'."""
+    _inst = None
+
+    def __repr__(self):
+        return 'UNINIT'
+
+
+UNINIT = _Uninit()
+
+
 class SymArray(_np.ndarray):
     __array_priority__ = 100
 
@@ -115,6 +126,14 @@ class SymArray(_np.ndarray):
     def argmin(self, axis=None, **k):
         return argmin(self, axis=axis)
 
+    def __setitem__(self, key, value):
+        if isinstance(value, _np.ndarray) and value.ndim == 0 and value.dtype == object:
+            value = value[()]
+        _np.ndarray.__setitem__(self, _fix_key(key), value)
+
+    def __getitem__(self, key):
+        return _np.ndarray.__getitem__(self, _fix_key(key))
+
     def __float__(self):
         if self.size != 1:
             raise TypeError('only size-1 arrays')
@@ -123,9 +142,19 @@ class SymArray(_np.ndarray):
     def __array_wrap__(self, obj, context=None, return_scalar=False):
         if obj.dtype != object:
             return _np.asarray(obj)
-        if return_scalar and obj.ndim == 0:
-            return obj[()]
         return obj.view(SymArray)
+
+
+def _fix_key(key):
+    """Object-dtype boolean masks (results of symbolic comparisons) -> real bool masks (forks per element)."""
+    if isinstance(key, _np.ndarray) and key.dtype == object:
+        flat = key.reshape(-1)
+        if flat.size and builtins.all(isinstance(v, (bool, _np.bool_, SymBool)) for v in flat):
+            return _to_bool_array(key)
+        return key
+    if isinstance(key, tuple) and builtins.any(isinstance(k, _np.ndarray) and k.dtype == object for k in key):
+        return tuple(_fix_key(k) for k in key)
+    return key
 
 
 # ---------------------------------------------------------------------------------------------
@@ -233,7 +262,9 @@ def copy(a):
 def _map1(f, a):
     if isinstance(a, _np.ndarray):
         if a.ndim == 0:
-            return f(a[()])
+            out = _np.empty((), dtype=object)
+            out[()] = f(a[()])
+            return out.view(SymArray)
         out = _np.empty(a.shape, dtype=object)
         flat = out.reshape(-1)
         src = a.reshape(-1)
@@ -256,8 +287,6 @@ def _map2(f, a, b):
         fo, fa, fb = out.reshape(-1), aa.reshape(-1), bb.reshape(-1)
         for i in range(fo.size):
             fo[i] = f(fa[i], fb[i])
-        if out.ndim == 0:
-            return out[()]
         return out.view(SymArray)
     return f(a, b)
 
@@ -323,7 +352,7 @@ def _el_sin(v):
 def _simplify_num(r):
     if isinstance(r, Sx):
         f = r.as_fraction()
-        if f is None and all(p == 0 and not m for (m, _, p) in r.t):
+        if f is None and builtins.all(p == 0 and not m for (m, _, p) in r.t):
             red = core.reduce_terms(r)
             f = red.as_fraction()
             if f is None:
@@ -336,8 +365,8 @@ def _simplify_num(r):
 def _el_abs(v):
     v = _ex(v)
     if isinstance(v, (Sx, _NaN)):
-        return abs(v)
-    return abs(v)
+        return builtins.abs(v)
+    return builtins.abs(v)
 
 
 def _el_floor(v):
@@ -551,7 +580,11 @@ def ones(shape, dtype=None, **k):
 
 
 def empty(shape, dtype=None, **k):
-    return zeros(shape, dtype)
+    if dtype is not None and _is_bool_dtype(dtype):
+        return _np.zeros(_shape(shape), dtype=bool)
+    out = _np.empty(_shape(shape), dtype=object)
+    out.fill(UNINIT)
+    return out.view(SymArray)
 
 
 def full(shape, fill_value, dtype=None, **k):
@@ -573,7 +606,7 @@ def ones_like(a, dtype=None, **k):
 
 
 def empty_like(a, dtype=None, **k):
-    return zeros(_np.shape(a), dtype)
+    return empty(_np.shape(a), dtype)
 
 
 def full_like(a, v, dtype=None, **k):
